@@ -14,6 +14,10 @@ pub type DateTimeType = StdDateTime<Tz>;
 
 pub fn make_date_time(date: StdDateTime<FixedOffset>) -> Result<DateTimeType, String> {
     use chrono::LocalResult;
+    if date.offset().local_minus_utc() % 3600 != 0 {
+        // There is no fixed offset timezone for offsets that are not whole hours
+        return Err(format!("Unsupported timezone offset {}", date.offset()));
+    }
     if let Ok(tz) = find_timezone(&fixed_timezone(&date.offset().to_string())) {
         Ok(match tz.from_local_datetime(&date.naive_local()) {
             LocalResult::Single(val) => val,
